@@ -20,6 +20,9 @@ CONSTANTS
   LitsR = FALSE
   CarrierKinds = {}
   HistBound = 0
+  SameSchemes = {}
+  SameUsers = {}
+  SamePorts = {}
   PoolClasses = {}
   Emit = TRUE
 INVARIANTS Safe RedirectsChecked EmitCase
